@@ -16,6 +16,19 @@ RULE = ("square sparse systems of order 1..60 (quick: 1..40): SPD (Gram+shift), 
         "order; the empty system; non-square / mismatched sizes (must be rejected). Every run is an ORACLE case (full answer judged by the property predicate); "
         "runs on systems of order <= 12 are in addition TIE cases (kinds it.*.t: Ok/Err, count and x after Ok, compared with the float model), except runs "
         "whose outcome is not a stable function of rounding (decision within 1e-9 tol, drift above tol/100, cond > 1e8: counted in tie_excluded_*). "
+        "SPECIAL-VALUES FAMILIES (oracle cases; a rotating part also TIE cases): struct-* = structured matrices of order 1,2,3,4,5,8 (identity, 2I, I/2, -I; diagonal with "
+        "equally spaced / two distinct / mixed-sign eigenvalues; tridiagonal symmetric, Laplacian, nonsymmetric; dense upper / lower triangular; dense with equal or "
+        "alternating entries; arrow; decoupled blocks; explicitly stored +0.0 / -0.0 entries; cyclic permutation, anti-diagonal and strictly upper = EMPTY main diagonal; "
+        "the zero matrix; a single stored entry; an empty column) x right-hand side (A*xt, ones, e_first, e_last, e_mid, alternating +-1, unit norm (0.6,0.8), zero, -0.0) "
+        "x guess (zero, -0.0, ones, far = 2^20, exact, exact except the first / last / middle component, 2*xt, -xt) x scale (A*2^sa, b*2^sb, (sa,sb) in "
+        "{(0,0),(+-60,0),(0,+-200),(60,-200),(-60,200),(+-120,+-120)}) x tol (powers of ten, 2^-20, 2^-33, 3.7e-5, 6.1e-11); localized = residual of the start in one "
+        "component; eigen-rhs = right-hand side a left / right eigenvector of a triangular matrix (the `== 0` exits of QMR / BiCGSTAB); budget0-guess = budget 0 on every guess class incl. NaN, +-inf, 1e300, subnormal (x compared bit for bit); ladder = every budget 0..2n+3 on one "
+        "system; scaled-* = the random families with A*2^(+-60,120,200) and b*2^(0,+-100,+-sa); huge-budget = budget 10^6; history = executor kind it.seq: an "
+        "operation on the matrix object (none, transpose twice, from_vecs, insert of the last entry, scale by 2, 1/2, -1, x.clone()) and then two solver calls on the "
+        "same matrix and the same x (every ordered pair of entry points over the seeds; budgets 0, 1, 2, n/2, n, 3n+10), each call judged with the previous x as its guess. "
+        "extreme-scale = adversarial family of the RECORDED finding f64-square-range (5 systems per quick run, all five entry points): small SPD / strictly diagonally "
+        "dominant systems with b or A scaled by 2^+-(520..700) or a solution beyond the f64 range; a failure carries the key exactly when the INPUT has ||b||^2, the "
+        "square of an entry of b / x0 / A or a product A_ij x_j of the exact solution outside [2^-1022, 2^1024) (never for 'budget 0 but x was modified', never for a history). "
         "distinct = distinct executor line of an oracle case; non-trivial = order >= 2 and budget >= 1.")
 TRUSTED = ["Coq 8.16.1 kernel + vm_compute (primitive floats)", "Rust executor /verif/harness (kinds it.*)",
            "python driver: generators, exact-rational residual, numpy spectral norm / condition number, stream comparators",
@@ -26,6 +39,7 @@ ASSUMPTIONS = ["Rust semantics of Vec/usize/f64 as modelled; f64::powf(|x|, 2.0)
                "discharged here for a concrete CSC matrix over Qc and over R)"]
 UNPROVED = ["the rounding drift between the recurrence residual and the true residual IS proved in the standard rounding model for CG, BiCG and BiCGSTAB (residual_drift, ok_means_solved_rounded, run_sparse_ok_means_solved_rounded: per update 4[(||A|| + m|||A|||) X + ||b||] u, X the model's own ghost trace; ok_means_solved_oracle_allowance derives the oracle's allowance 64*(k+1)*2^-53*(||A||_2*X + ||b||)/||b||' from it when m|||A||| <~ 30||A||); NOT proved: the same for QMR (its second recurrence is multiplied by unbounded scalars: the allowance is heuristic there) and the transfer to binary64 (finiteness / underflow of every intermediate); the drift is real: residual_drift_is_real exhibits Ok(4) with recurrence residual 1.5e-23 and true relative residual 4.5e-7",
             "finiteness of x on Ok in f64 is searched, not proved",
+            "RECORDED finding f64-square-range (same mechanism as C15: Vector<f64>::norm_2 squares its entries without scaling): with ||b|| < 2^-511 the solvers take b for zero and answer Ok(0) with x untouched (true relative residual 1); with entries of A below 2^-511 and a solution beyond the f64 range CG / BiCG / BiCGSTAB answer Ok(1) with x = inf; the real-number theorems do not cover these runs (they are outside the range where the float operations approximate the real ones); witnesses corpus/C08/kf_scale_underflow.json, kf_scale_overflow.json",
             "over a field a division by zero is a panic of the model (the theorems are silent on such runs); in f64 it yields inf/NaN -- covered by tie + search"]
 
 MANIFEST = dict(
@@ -35,7 +49,12 @@ MANIFEST = dict(
           "linear product: residual_invariant_{cg,bicg,bicgstab,qmr} (the recurrence vector equals b - A x at every exit, Ok or Err, for every budget -- hence at "
           "every iteration; QMR also s = A d), ok_means_solved (Ok => ||b - A x|| / ||b||' passes the code's test on the TRUE residual) and ok_means_solved_R "
           "(over the reals: ||b - A x||_2 <= tol ||b||') and x_keeps_length is the fourth any-arithmetic theorem; ok_means_solved_rows (the linearity hypothesis discharged for EVERY square matrix of EVERY order given as its list of rows). The float instance of the same definitions (CSC products of Model/Sparse.v, built by from_triplets) is "
-          "run against the implementation on systems of order <= 12; an oracle with an exact-rational residual judges every Ok answer up to order 60."),
+          "run against the implementation on systems of order <= 12; an oracle with an exact-rational residual judges every Ok answer up to order 60. "
+          "The search space includes structured matrices (identity .. empty main diagonal), joint power-of-two scaling of A and b, one-entry / equal-entry / -0.0 "
+          "right-hand sides, guesses that are exact except in one component, non-finite guesses at budget 0, every budget 0..2n+3 on one system, and histories "
+          "(two calls on the same matrix object and the same x after an operation on the matrix: executor kind it.seq, oracle only). "
+          "Right-hand sides / matrices scaled by 2^+-(520..700) are searched as well; the failures there are the recorded finding f64-square-range (norm_2 squares its entries), "
+          "keyed by the input alone."),
     note=("The drift of the residual recurrence is a theorem in the standard rounding model for CG, BiCG and BiCGSTAB (not QMR, not at binary64); on the implementation it is searched with the allowance "
           "64(k+1)eps(||A|| X + ||b||)/||b||', X taken from the float model's trace; finiteness of x is searched. The exact-arithmetic theorems treat a division by zero as a panic "
           "(the run returns nothing), where f64 produces inf/NaN (then no test can succeed: NaN <= tol is false)."),
@@ -107,7 +126,132 @@ def generate(rng, tier):
     s = Sys(0, 0, [], [], [], {"fam": "empty"})
     for sv in SOLVERS:
         cases.extend(mk_cases(sv, s, 3, 1e-8, "empty", nontrivial=False, tie=True, want_trace=True))
+    cases.extend(gen_special(rng.fork("c08-special"), tier))
+    # extreme scale (recorded finding f64-square-range): failures on these inputs carry the key, decided from the input
+    for (sv, s, mi, tol, kap, fam) in extreme_systems(rng.fork("c08-extreme"), tier, lambda n: 3 * n + 10):
+        cases.extend(mk_cases(sv, s, mi, tol, "extreme-scale", tie=False, want_trace=True))
     return finalize(cases, PID)
+
+# ----------------------------------------------------------------------------- special-values families (iterlib: structured catalogue)
+def gen_special(g, tier):
+    """Structured matrices x right-hand-side class x guess class x scale of A and b x tolerance form x budget, all five
+    entry points on every system.  Quick: every structure twice per run, the other dimensions rotate with the seed;
+    thorough: many more draws plus the full guess x rhs cross at budget 0."""
+    out = []
+    quick = (tier == "quick")
+    orders = ["sorted", "shuffled", "reversed", "rowmajor"]
+    # (1) struct: every structure, the other dimensions drawn
+    reps = 1 if quick else 6
+    idx = 0
+    for name in STRUCT_ALL:
+        for rep in range(reps):
+            n = g.choice(STRUCT_N)
+            sa, sb = g.choice(SCALES)
+            s = struct_system(name, n, g.choice(RHS_KINDS), g.choice(GUESS_ANY + GUESS_XT), sa, sb, g.choice(orders), g)
+            tol = g.choice(TOLS_SPECIAL)
+            tie = (not quick) or (idx % 4 == 0)
+            idx += 1
+            for sv in SOLVERS:
+                mi = budget_of(g, n)
+                out.extend(mk_cases(sv, s, mi, tol, "struct-" + name, nontrivial=(n >= 2 and mi >= 1), tie=tie, want_trace=True))
+    # (1b) the structures with an EMPTY main diagonal / without entries always also with a one-entry right-hand side and the zero
+    #      guess: (r, A r) = 0 exactly, so the first step length is inf or NaN -- the runs on which "Ok => x finite" bites
+    for k, name in enumerate(STRUCT_C08_ONLY):
+        n = g.choice([2, 3, 4, 5])
+        s = struct_system(name, n, ["e-first", "e-last", "e-mid"][(k + g.below(3)) % 3], "zero", 0, 0, "sorted", g)
+        for sv in SOLVERS:
+            out.extend(mk_cases(sv, s, budget_of(g, n), g.choice(TOLS_SPECIAL), "struct-" + name, tie=(not quick), want_trace=True))
+    # (1c) right-hand side = a LEFT or RIGHT eigenvector of a nonsymmetric matrix (e_last / e_first for an upper triangular
+    #      matrix and vice versa), zero guess: one Krylov space is exhausted after a single step, which is how the `== 0` exits
+    #      of QMR (rho, xi, delta, ep), BiCGSTAB (rho_1, omega) and the 0/0 of BiCG are reached (own rng stream: the draws of
+    #      the other families do not depend on this block)
+    ge = g.fork("c08-eigen-rhs")
+    for name, rk in [("upper-ones", "e-last"), ("lower-ones", "e-first"), ("upper-ones", "e-first"), ("lower-ones", "e-last")]:
+        for n in ([ge.choice([2, 3, 4, 5])] if quick else [2, 3, 4, 5, 8]):
+            s = struct_system(name, n, rk, "zero", 0, 0, "sorted", ge)
+            for sv in SOLVERS:
+                out.extend(mk_cases(sv, s, ge.choice([n, 2 * n, 3 * n + 10]), ge.choice(TOLS_SPECIAL), "eigen-rhs", tie=(not quick), want_trace=True))
+    # (2) localized: the residual of the start lives in ONE component (first / last / middle): a norm, a dot product or a
+    #     copy that loses a position accepts such a start (or stops early) with the component unsolved
+    loc_names = ["diag-ap", "block", "tridiag-41", "dense-equal", "upper-ones"]
+    for name in (g.shuffle(loc_names)[:3] if quick else loc_names):
+        for gk in ["but-first", "but-last", "but-mid"]:
+            for n in ([g.choice([4, 5, 8])] if quick else [3, 5, 8]):
+                s = struct_system(name, n, "Axt", gk, 0, 0, "sorted", g)
+                for sv in SOLVERS:
+                    out.extend(mk_cases(sv, s, 3 * n + 10, 1e-6, "localized", tie=(not quick), want_trace=True))
+    # (3) budget 0 on every guess class (the non-finite ones included: "x is left untouched" is a statement about bits)
+    rhs_all = ["Axt", "zero", "negzero", "ones"]
+    d4 = g.below(4)
+    rhs_pick = [["Axt", "ones"][d4 % 2]] if quick else rhs_all     # quick: a NON-zero rhs here (the start-up test fails, the loop is entered 0 times) ...
+    rhs_zero = ["zero", "negzero"][d4 // 2]                         # ... and a zero one for the guesses below (block 3b)
+    for name, n in ([(g.choice(["tridiag-41", "dense-alt", "upper-ones"]), g.choice([1, 2, 3, 4]))] if quick else
+                    [(nm, k) for nm in ("tridiag-41", "dense-alt", "upper-ones") for k in (1, 3)]):
+        for gk in GUESS_ANY + GUESS_XT + GUESS_NONFINITE:
+            for rk in sorted(set(rhs_pick)):
+                s = struct_system(name, n, rk, gk, 0, 0, "sorted", g)
+                for sv in SOLVERS:
+                    out.extend(mk_cases(sv, s, 0, g.choice(TOLS_SPECIAL), "budget0-guess", tie=(gk in ("negzero", "subnormal")), want_trace=True))
+    # (3b) quick tier: the zero-type right-hand side with the guesses that solve it (or not): zero, -0.0, ones, NaN  (own rng stream)
+    if quick:
+        gz = g.fork("c08-budget0-zero-rhs")
+        name, n = gz.choice(["tridiag-41", "dense-alt", "upper-ones"]), gz.choice([1, 2, 3, 4])
+        for gk in ["negzero", "zero", "ones", "nan"]:
+            s = struct_system(name, n, rhs_zero, gk, 0, 0, "sorted", gz)
+            for sv in SOLVERS:
+                out.extend(mk_cases(sv, s, 0, gz.choice(TOLS_SPECIAL), "budget0-guess", tie=False, want_trace=True))
+    # (4) budget ladder: every budget 0 .. 2n+3 on the same system (the first budget that suffices, the one before, the one after)
+    for t in range(1 if quick else 6):
+        name = g.choice(STRUCT_BOTH + STRUCT_SDD_ONLY)
+        n = g.choice([2, 3, 4])
+        s = struct_system(name, n, g.choice(["Axt", "ones", "e-last"]), g.choice(["zero", "ones", "negzero"]), 0, 0, "sorted", g)
+        tol = g.choice(TOLS_SPECIAL)
+        for mi in range(0, 2 * n + 4):
+            for sv in SOLVERS:
+                out.extend(mk_cases(sv, s, mi, tol, "ladder", nontrivial=(mi >= 1), tie=(not quick), want_trace=True))
+    # (5) scaled: the random families with every entry of A times 2^sa and the right-hand side times 2^sb
+    for t in range(16 if quick else 80):
+        n = g.range(2, 10)
+        fam = FAMS[t % len(FAMS)]                             # every family with both signs of the exponent
+        ints = g.chance(1, 2)
+        sa = g.choice([60, 120, 200]) * (1 if (t // len(FAMS)) % 2 == 0 else -1)
+        sb = g.choice([0, 0, 100, -100, sa, -sa]) if abs(sa) < 200 else g.choice([0, sa])
+        A = scale_system(gen_matrix(g, n, fam, ints), sa)
+        trip = triplets_of(g, A)
+        gk = g.choice(["zero", "random", "random", "exact"])
+        b, x0, xt = rhs_and_guess(g, n, trip, gk, "plain", ints)
+        f = 2.0 ** (sb - sa)                                   # scale of the solution
+        b = csc_mul(trip, n, [v * f for v in xt])
+        x0 = [v * f for v in x0]
+        s = Sys(n, n, trip, b, x0, {"fam": fam, "sa": sa, "sb": sb, "guess": gk})
+        tol = pick_tol(g)
+        for sv in SOLVERS:
+            mi = budget_of(g, n)
+            out.extend(mk_cases(sv, s, mi, tol, "scaled-" + fam, nontrivial=(mi >= 1), tie=(t % 4 == 0), want_trace=True))
+    # (7) histories: an operation on the matrix object (transpose twice, rebuilt by from_vecs, last entry stored by insert,
+    #     scale) and then TWO solver calls one after the other on the same matrix and the same x (restart from what the first
+    #     call left: after Ok, after Err with a partial iterate, after budget 0), every ordered pair of entry points
+    pairs = [(a, b) for a in SOLVERS for b in SOLVERS]
+    pairs = g.shuffle(pairs)
+    for t, (sa_, sb_) in enumerate(pairs if not quick else pairs[:15]):
+        for rep in range(1 if quick else 4):
+            n = g.range(2, 8)
+            if g.chance(1, 2):
+                s = struct_system(g.choice(STRUCT_BOTH), n, g.choice(["Axt", "ones", "e-last"]), g.choice(["zero", "ones", "negzero"]), 0, 0, "shuffled", g)
+            else:
+                A = sdd_system(g, n, ints=False) if g.chance(1, 2) else spd_system(g, n, ints=False)
+                trip = triplets_of(g, A)
+                b, x0, xt = rhs_and_guess(g, n, trip, g.choice(["zero", "random"]), "plain", False)
+                s = Sys(n, n, trip, b, x0, {"fam": "seq"})
+            first = g.choice([0, 1, 2, n // 2, 3 * n + 10, 3 * n + 10])
+            second = g.choice([0, 1, n, 3 * n + 10, 3 * n + 10])
+            out.append(mk_seq_case(g.choice(PRE_OPS), s, pick_tol(g, 2, 10), [sa_, sb_], [first, second], "history"))
+    # (6) a very large budget on systems that converge in a few steps (the count still obeys the budget; nothing is sized by it)
+    for name in (["diag-ap"] if quick else ["diag-ap", "tridiag-41", "identity"]):
+        s = struct_system(name, 3, "Axt", "zero", 0, 0, "sorted", g)
+        for sv in SOLVERS:
+            out.extend(mk_cases(sv, s, 1000000, 1e-8, "huge-budget", tie=False, want_trace=True))
+    return out
 
 case_from_json = iterlib.case_from_json
 
@@ -118,13 +262,31 @@ def oracle(case, items):
     m = case.meta
     if m.get("role") == "tie":
         return None          # judged through its oracle twin (same system, full answer)
+    if m.get("role") == "seq":
+        # a history: every call is judged by the same predicate, its guess being what the previous call left in x
+        answers = split_seq(items, len(m["solvers"]))
+        if answers is None:
+            return "a solver panicked in the history %r on a square system of matching sizes" % (m["solvers"],)
+        s = seq_reference(Sys.from_json(m["sys"]), m["pre"])
+        x0 = list(s.x0)
+        for j, a in enumerate(answers):
+            sj = Sys(s.rows, s.cols, s.trip, s.b, x0, s.info)
+            r = judge(None, sj, a, m["tol"], m["budgets"][j])
+            if r:
+                return "history pre=%r, call %d (%s after %r): %s" % (m["pre"], j + 1, m["solvers"][j], m["solvers"][:j], r)
+            x0 = list(a.x)
+        return None
     a = Ans(items)
     if m.get("bad"):
         return None if a.panic else "non-square / mismatched system was answered instead of rejected: %r" % (items[:4],)
     if a.panic:
         return None          # no answer, no claim (the correspondence check compares panic-vs-value)
     s = Sys.from_json(m["sys"])
-    n, tol, maxit = s.rows, m["tol"], m["maxit"]
+    return judge(case, s, a, m["tol"], m["maxit"])
+
+def judge(case, s, a, tol, maxit):
+    """the property predicate on one call; case = None: no model trace (the allowance is computed from the answer alone)"""
+    n = s.rows
     if a.budget != maxit: return "executor echoed budget %r for %r" % (a.budget, maxit)
     if len(a.x) != n: return "x has %d components, order %d" % (len(a.x), n)
     if maxit == 0:
@@ -146,8 +308,8 @@ def oracle(case, items):
     if res <= tol:
         return None
     # drift allowance: needs the largest intermediate iterate / update norm, from the float model's trace
-    tr = model_trace(case, PID)
-    X = max(norm2(a.x), norm2(s.x0))
+    tr = model_trace(case, PID) if case is not None else None
+    X = max(norm2(a.x), norm2(s.x0)) if all_finite(s.x0) else norm2(a.x)
     if tr is not None and tr.X is not None:
         # the model's trace stands for the implementation's run only when both ended the same way and the trace is
         # finite (a finite Ok answer cannot follow a non-finite iterate); otherwise the allowance is computed from the
@@ -163,6 +325,17 @@ def oracle(case, items):
         return ("Ok(%d) with true relative residual %.3e > tol %.1e + drift allowance %.3e (n=%d, ||A||=%.3g, largest iterate/update %.3g, ||b||=%.3g)"
                 % (a.k, res, tol, allow, n, spec_norm(s.dense()), X, nb))
     return None
+
+def finding_key(case, desc, decoded):
+    """`f64-square-range` exactly when the INPUT has ||b||^2, the square of an entry of b / x0 / A, or a product
+    A_ij * x_j of the exact solution outside the normal f64 range (iterlib.scale_out_of_range); decided from the input,
+    never from the failure.  Histories and rejected systems are never excused."""
+    m = case.meta
+    if m.get("role") == "seq" or m.get("bad") or "sys" not in m:
+        return None
+    if isinstance(desc, str) and desc.startswith("budget 0 but x was modified"):
+        return None          # no square is formed on the way to that failure: never excused (narrows the key, never widens it)
+    return KEY_SQUARE_RANGE if scale_out_of_range(Sys.from_json(m["sys"])) else None
 
 def prepare(tier):
     del iterlib.PENDING[:]
